@@ -86,7 +86,7 @@ def run(tier, seed, build):
     rng = random.Random(seed)
     cfg = ("SPECIFICATION EmitSpec\nCONSTANTS\nNFun = 8\nDeviations = {}\nTier = \"%s\"\n%s\nCHECK_DEADLOCK FALSE\n"
            % (tier, "\n".join("INVARIANT " + i for i in INVS)))
-    mc = run_tlc("c14-mc", "MC_PanelEquiv", cfg, workers=16, timeout=6000, heap="16g")
+    mc = run_tlc("c14-mc", "MC_PanelEquiv", cfg, workers=16, timeout=6000, heap="8g")
     rep.add_tlc("MC_PanelEquiv", mc)
     if not mc.ok:
         rep.machinery("TLC on MC_PanelEquiv failed: " + mc.errors())
